@@ -35,11 +35,19 @@ impl TypeConfig for Tc {
     type PE = MockPurgeExecutor;
 }
 
+/// One recorded state-machine input.
+#[derive(Clone, Debug)]
+pub enum Rec {
+    Chunk(Vec<(u64, Command)>),
+    /// apply_snapshot_from_file(last_included.index)
+    Snap(u64),
+}
+
 /// Recording, optionally gated wrapper around the real File state machine.
 pub struct RecSm {
     pub inner: FileStateMachine,
-    /// every apply_chunk call: (index, command) list
-    pub chunks: Mutex<Vec<Vec<(u64, Command)>>>,
+    /// every apply_chunk call ((index, command) list) and every snapshot install, in call order
+    pub chunks: Mutex<Vec<Rec>>,
     pub gated: AtomicBool,
     pub gate: tokio::sync::Semaphore,
     pub waiting: AtomicBool,
@@ -101,7 +109,7 @@ impl StateMachine for RecSm {
             self.waiting.store(false, Ordering::SeqCst);
         }
         let _g = DoneGuard(&self.done);
-        self.chunks.lock().unwrap().push(chunk.iter().map(|e| (e.index, e.command.clone())).collect());
+        self.chunks.lock().unwrap().push(Rec::Chunk(chunk.iter().map(|e| (e.index, e.command.clone())).collect()));
         if self.sync_inner.load(Ordering::SeqCst) {
             let inner = &self.inner;
             return std::thread::scope(|sc| {
@@ -137,6 +145,7 @@ impl StateMachine for RecSm {
         self.inner.persist_last_snapshot_metadata(m)
     }
     async fn apply_snapshot_from_file(&self, m: &SnapshotMetadata, p: std::path::PathBuf) -> Result<(), Error> {
+        self.chunks.lock().unwrap().push(Rec::Snap(m.last_included.map(|l| l.index).unwrap_or(0)));
         self.inner.apply_snapshot_from_file(m, p).await
     }
     async fn generate_snapshot_data(&self, d: std::path::PathBuf, l: LogId) -> Result<Bytes, Error> {
